@@ -51,6 +51,7 @@ type ShipConnection struct {
 	//
 	// ProlongationRequestReply SHIP 13.4.4.1.3: Detection of response timeout on prolongation request.
 	handshakeTimerRunning  bool
+	handshakeTimerDisabled bool // set once the connection is closed, no timer may be started anymore
 	handshakeTimerType     timeoutTimerType
 	handshakeTimerStopChan chan struct{}
 	handshakeTimerMux      sync.Mutex
@@ -165,7 +166,7 @@ func (c *ShipConnection) AbortPendingHandshake() {
 // close this ship connection
 func (c *ShipConnection) CloseConnection(safe bool, code int, reason string) {
 	c.shutdownOnce.Do(func() {
-		c.stopHandshakeTimer()
+		c.disableHandshakeTimer()
 
 		// handshake is completed if approved or aborted
 		state := c.getState()
